@@ -825,7 +825,9 @@ class LogixDriver(CIPDriver):
         ):
             data_type["string"] = data_type["internal_tags"]["DATA"]["array"]
 
-            data_type["type_class"] = FixedSizeString(template["structure_size"] - 4)
+            data_type["type_class"] = FixedSizeString(
+                template["structure_size"] - 4, max_len_=data_type["string"]
+            )
         else:
             data_type["_struct_members"] = (_struct_members, _bit_members)
             data_type["type_class"] = StructTag(
